@@ -675,7 +675,7 @@ const CORNER_TEXT: &[(&str, &str)] = &[
 fn gen_requests(tier: &str, out: &str) {
     let mut r = Rng::from_env();
     let thorough = tier == "thorough";
-    let (n_cmp, n_disp, n_parse, n_sql) = if thorough { (300_000, 120_000, 120_000, 400) } else { (9000, 5000, 5000, 39) };
+    let (n_cmp, n_disp, n_parse, n_sql) = if thorough { (1_000_000, 300_000, 300_000, 2000) } else { (9000, 5000, 5000, 39) };
     let mut s = String::new();
     for i in 0..n_cmp {
         let ty = TYPES[i % TYPES.len()];
